@@ -91,7 +91,9 @@ def _do_transfer(  # noqa: C901
         logger.debug("transfer dir: %s with %d files", dir_hash, len(bound_file_ids))
 
         dir_fails = _add(src, dest, bound_file_ids, **kwargs)
-        if dir_fails:
+        # files shared with an earlier directory were claimed (and may have
+        # failed) there, so also consult the failures collected so far
+        if dir_fails or not failed_ids.isdisjoint(entry_ids):
             logger.debug(
                 "failed to upload full contents of '%s', aborting .dir file upload",
                 dir_hash,
